@@ -10,16 +10,21 @@ import (
 
 func init() {
 	register(&Prop{
-		ID: "C15",
-		Decided: "isolation and lifecycle only: (1) the partition key encoder of the MATCH_RECOGNIZE runner is typed and length-prefixed (uniquely decodable); (2) all partition state of cep.Engine (partMap, lru, seq) is accessed only under e.mu, the sweeper included; (3) per-partition state is reached only through getPartition(key): partMap is read/written only by getPartition and evictIfNeeded, and Process steps exactly the partition it looked up with the key it was given; (4) partitions are evicted only when lru.Len() > maxPart and the evicted one is lru.Back(); (5) Stop order: waitLifecycle -> cep.Stop -> engine.Flush -> synchronous flush delivery, flush rows projected like live matches (shared with C18); (5b) the scratch map that DEFINE/MEASURES evaluation takes from the process-wide pool is emptied before its first write (or before every exit), so no row's fields leak into the evaluation of another row, partition or instance; (6) the live path feeds the engine only rows that passed JOIN enrichment and WHERE, with the runner's own partition key.",
+		ID:         "C15",
+		Decided:    "isolation and lifecycle only: (1) the partition key encoder of the MATCH_RECOGNIZE runner is typed and length-prefixed (uniquely decodable); (2) all partition state of cep.Engine (partMap, lru, seq) is accessed only under e.mu, the sweeper included; (3) per-partition state is reached only through getPartition(key): partMap is read/written only by getPartition and evictIfNeeded, and Process steps exactly the partition it looked up with the key it was given; (4) partitions are evicted only when lru.Len() > maxPart and the evicted one is lru.Back(); (5) Stop order: waitLifecycle -> cep.Stop -> engine.Flush -> synchronous flush delivery, flush rows projected like live matches (shared with C18); (5b) the scratch map that DEFINE/MEASURES evaluation takes from the process-wide pool is emptied before its first write (or before every exit), so no row's fields leak into the evaluation of another row, partition or instance; (6) the live path feeds the engine only rows that passed JOIN enrichment and WHERE, with the runner's own partition key.",
 		NotDecided: "everything about which matches are reported: NFA construction, greedy/reluctant choice, SKIP modes, WITHIN, MEASURES, MATCH_NUMBER — match semantics are value-level.",
-		Run: runC15,
+		Run:        runC15,
 	})
 }
 
 func runC15(a *A) {
+	a.Rule("shape/partition-local-seq", 1, func() { a.ruleCepSeqPerPartition() })
+	a.Rule("flow/accepting-run-not-lost", 2, func() { a.ruleCepAcceptingRunKept() })
 	a.Rule("keyenc/cep-partition", 1, func() { a.keyencRule("stream", "cepRunner", "partitionKey", keyencOpts{}) })
-	a.Rule("locks/guarded-by", 5, func() { a.lockRules("cep", "Engine") })
+	a.Rule("locks/guarded-by", 9, func() {
+		a.lockRules("cep", "Engine")
+		a.lockRules("cep", "partition")
+	})
 	a.Rule("whomay/partition-map", 2, func() {
 		E := a.Named("cep", "Engine")
 		pm := a.FieldOf(E, "partMap")
@@ -153,4 +158,225 @@ func runC15(a *A) {
 			a.Check(!reach, fname(fn)+"#where-gates-engine", c.Pos(), "a row rejected by WHERE never reaches the engine", "the engine can be fed with a row whose WHERE predicate is false")
 		}
 	})
+}
+
+// ruleLoopMustOrExcuse: on every path through one iteration of loop l (body entry back to the header or
+// out of the loop) either an instruction accepted by must is executed or an excusing branch edge is
+// taken. Returns the blocks of an offending path, or nil.
+func loopMustOrExcuse(l *RLoop, must func(ssa.Instruction) bool, excuse func(iff *ssa.If) (onTrue, onFalse bool)) []*ssa.BasicBlock {
+	type st struct {
+		b  *ssa.BasicBlock
+		ok bool
+	}
+	seen := map[st]bool{}
+	var path []*ssa.BasicBlock
+	var bad []*ssa.BasicBlock
+	var dfs func(b *ssa.BasicBlock, ok bool) bool
+	dfs = func(b *ssa.BasicBlock, ok bool) bool {
+		if b == l.Header || !l.Blocks[b] {
+			if !ok {
+				bad = append(append([]*ssa.BasicBlock{}, path...), b)
+				return true
+			}
+			return false
+		}
+		if seen[st{b, ok}] {
+			return false
+		}
+		seen[st{b, ok}] = true
+		path = append(path, b)
+		defer func() { path = path[:len(path)-1] }()
+		for _, in := range b.Instrs {
+			if must(in) {
+				ok = true
+			}
+		}
+		if iff, isIf := b.Instrs[len(b.Instrs)-1].(*ssa.If); isIf {
+			onT, onF := excuse(iff)
+			if dfs(b.Succs[0], ok || onT) {
+				return true
+			}
+			return dfs(b.Succs[1], ok || onF)
+		}
+		for _, s := range b.Succs {
+			if dfs(s, ok) {
+				return true
+			}
+		}
+		return false
+	}
+	dfs(l.Body, false)
+	return bad
+}
+
+// condCall strips negations from a branch condition and returns the call it tests with its polarity.
+func condCall(v ssa.Value) (*ssa.Call, bool) {
+	pos := true
+	for {
+		if u, ok := v.(*ssa.UnOp); ok && u.Op == token.NOT {
+			v = u.X
+			pos = !pos
+			continue
+		}
+		break
+	}
+	c, _ := v.(*ssa.Call)
+	return c, pos
+}
+
+// ruleCepRunRules: the two structural conditions of "no valid match is omitted" and "no shared rows /
+// other partitions never matter" that the matcher's bookkeeping rests on.
+func (a *A) ruleCepSeqPerPartition() {
+	// (a) skipTo/seqOfLabel compute row numbers as startSeq+offset, so the numbers handed to step must
+	// count the rows of that partition only: the seq argument is read from a field of the partition
+	// that is stepped.
+	pr := a.Method("cep", "Engine", "Process")
+	stp := a.Method("cep", "Engine", "step")
+	P := a.Named("cep", "partition")
+	n := 0
+	for _, fn := range a.ModFuncs {
+		for _, site := range callsTo(fn, stp) {
+			n++
+			cc := callCommon(site)
+			pArg, seqArg := cc.Args[1], cc.Args[len(cc.Args)-1]
+			ok := false
+			v := seqArg
+			if bo, isBin := v.(*ssa.BinOp); isBin && bo.Op == token.ADD {
+				v = bo.X
+			}
+			if ld, isLd := v.(*ssa.UnOp); isLd && ld.Op == token.MUL {
+				if fa, isFa := ld.X.(*ssa.FieldAddr); isFa && fa.X == pArg && isNamedType(fa.X.Type(), P.Obj().Pkg().Path(), "partition") {
+					ok = true
+				}
+			}
+			a.Check(ok, fname(fn)+"#seq-of-stepped-partition", site.Pos(),
+				"the row number passed to step is a counter of the partition being stepped",
+				"the row number passed to step is "+TermOf(seqArg, nil).String()+", not a counter of the stepped partition: skipTo and seqOfLabel compute a match's row numbers as startSeq+offset, which is only right when a partition's rows are numbered consecutively; with interleaved partitions SKIP resumes too early and matches share rows")
+		}
+	}
+	_ = pr
+	if n == 0 {
+		a.Und("step-call", token.NoPos, "no call of (*Engine).step found")
+	}
+}
+
+func (a *A) ruleCepAcceptingRunKept() {
+	P := a.Named("cep", "partition")
+	runsF := a.FieldOf(P, "runs")
+	hasAccept := a.Func("cep", "hasAccept")
+	type spec struct {
+		fn     *ssa.Function
+		what   string
+		target string // the slice the run must be appended to
+	}
+	E := a.Named("cep", "Engine")
+	maxRows := a.FieldOf(E, "maxRunRows")
+	for _, sp := range []spec{
+		{a.Method("cep", "Engine", "step"), "recorded as a completion", "completions"},
+		{a.Method("cep", "Engine", "sweep"), "kept for the next event or Flush", "kept"},
+	} {
+		found := false
+		for _, l := range rangeLoops(sp.fn) {
+			if l.X == nil {
+				continue
+			}
+			if xt := TermOf(l.X, nil); xt.Kind != "field" || xt.Field != runsF {
+				continue
+			}
+			found = true
+			construct := fname(sp.fn) + "#accepting-run-not-lost"
+			must := func(in ssa.Instruction) bool {
+				c, ok := in.(*ssa.Call)
+				if !ok {
+					return false
+				}
+				cc, ok := isBuiltinCall(c, "append")
+				if !ok {
+					return false
+				}
+				for _, e := range appendedElems(cc) {
+					if l.isElem(e) {
+						return true
+					}
+				}
+				return false
+			}
+			// successors of the run: results of (*Engine).advance(r, ...)
+			isSucc := func(v ssa.Value) bool {
+				for _, leaf := range phiLeaves(v) {
+					c, ok := leaf.(*ssa.Call)
+					if !ok || c.Call.StaticCallee() == nil || c.Call.StaticCallee().Name() != "advance" || len(c.Call.Args) < 2 || !l.isElem(c.Call.Args[1]) {
+						if k, isK := leaf.(*ssa.Const); isK && k.Value == nil {
+							continue // nil: no successors
+						}
+						return false
+					}
+				}
+				return true
+			}
+			excuse := func(iff *ssa.If) (bool, bool) {
+				if c, pos := condCall(iff.Cond); c != nil && c.Call.StaticCallee() != nil {
+					callee := c.Call.StaticCallee()
+					// hasAccept(r.states) false: the run is not a match yet
+					if callee == hasAccept && len(c.Call.Args) == 1 {
+						if t := TermOf(c.Call.Args[0], nil); t.Kind == "field" && t.Field != nil && t.Field.Name() == "states" && t.Base != nil && l.isElem(derefLoadBase(c.Call.Args[0])) {
+							return !pos, pos
+						}
+					}
+					// a boolean module helper over the run's successors that calls hasAccept: a successor is accepting
+					if a.fnInModule(callee) && len(c.Call.Args) == 1 && isSucc(c.Call.Args[0]) && len(callsTo(callee, hasAccept)) > 0 {
+						return pos, !pos
+					}
+				}
+				// r.nrows > e.maxRunRows: the documented length guard
+				if bo, ok := iff.Cond.(*ssa.BinOp); ok && (bo.Op == token.GTR || bo.Op == token.LSS || bo.Op == token.GEQ || bo.Op == token.LEQ) {
+					tx, ty := TermOf(bo.X, nil), TermOf(bo.Y, nil)
+					isMax := func(t *Term) bool { return t.Kind == "field" && t.Field == maxRows }
+					if isMax(tx) || isMax(ty) {
+						over := bo.Op == token.GTR && isMax(ty) || bo.Op == token.LSS && isMax(tx)
+						notOver := bo.Op == token.LEQ && isMax(ty) || bo.Op == token.GEQ && isMax(tx)
+						if over {
+							return true, false
+						}
+						if notOver {
+							return false, true
+						}
+					}
+				}
+				return false, false
+			}
+			bad := loopMustOrExcuse(l, must, excuse)
+			if bad == nil {
+				a.Ok(construct, l.Header.Instrs[0].Pos(), "on every path through the loop over p.runs a run is %s unless hasAccept(r.states) is false, one of its successors is accepting, or the run-length guard is hit", sp.what)
+			} else {
+				var bs []string
+				for _, b := range bad {
+					bs = append(bs, fmt.Sprintf("%d", b.Index))
+				}
+				pos := token.NoPos
+				for _, b := range bad {
+					for _, in := range b.Instrs {
+						if in.Pos() != token.NoPos {
+							pos = in.Pos()
+						}
+					}
+				}
+				a.Bad(construct, pos, "a run may leave the loop over p.runs through blocks %s without being %s although it may be accepting (hasAccept(r.states) not known false, no accepting successor, length guard not hit): its rows are a valid match that is never reported", strings.Join(bs, ">"), sp.what)
+			}
+		}
+		if !found {
+			a.Und(fname(sp.fn)+"#accepting-run-not-lost", sp.fn.Pos(), "no loop over partition.runs found")
+		}
+	}
+}
+
+// derefLoadBase: for the address/load chain x.f (FieldAddr on a loaded pointer), the value x.
+func derefLoadBase(v ssa.Value) ssa.Value {
+	if ld, ok := v.(*ssa.UnOp); ok && ld.Op == token.MUL {
+		v = ld.X
+	}
+	if fa, ok := v.(*ssa.FieldAddr); ok {
+		return fa.X
+	}
+	return v
 }
